@@ -6,6 +6,9 @@ checks={
  "C03": dict(category="exploration", design="§3 C03", technique="exhaustive small-scope enumeration (all streams<=n x all segmentations x operation sequences) on the real buffer under the cooperative scheduler, against a cursor reference model",
    text="Every byte stream up to length 6 (quick) / 8 (thorough) over the alphabet that matters, every segmentation and every operation sequence of a fixed menu is run on the real trzszBuffer and compared step by step with a reference cursor model, with blocking made observable by the scheduler. Exhaustive within the bound; nothing is sampled.",
    note="Trusted: the 30-line reference model; the overlay rewriter (tied down by running the pinned suite on the instrumented build at setup). Long streams are not covered beyond the bound."),
+ "C13": dict(category="model_checking", design="§3 C13", technique="stateless DFS over all goroutine schedules of the real relay up to a preemption bound (iterative context bounding) under a cooperative scheduler",
+   text="The real TrzszRelay (NewTrzszRelay) is driven with scripted, causally gated client and server streams; every schedule of its goroutines with at most 1 preemption (quick) / 2 (thorough), context switches at blocking points being free, is executed and both output streams are compared with a list-shaped reference. This is the level at which the status-read/lock/flush windows are hit deterministically.",
+   note="Trusted: scheduling points = channel/mutex/atomic/WaitGroup/stream operations (overlay rewriter); the reference (prefix ++ relay line ++ rest); gates that script causality. Not covered: more preemptions than the bound, plain-memory races (separate -race pass), tmux bypass sink."),
 }
 not_yet="check not built yet in this session (framework under construction; see DESIGN.md §7 order)"
 m={"version":1,
